@@ -120,6 +120,7 @@ class Interp:
         self.max_paths = max_paths
         self.timeout_ms = timeout_ms
         self.overflow_wrap = True
+        self.feas_first_ms = 4000
         self.by_last = {}
         for name in fns:
             self.by_last.setdefault(last_segment(name), []).append(name)
@@ -178,8 +179,15 @@ class Interp:
         self.sync_side()
         self.solver.push()
         self.solver.add(cond)
+        # first a short attempt with the integer encoding; a model that is hard to find there is usually
+        # found quickly by the exact bit-vector back end below (measured: 20 s timeouts vs. 7-28 s)
+        self.solver.set("timeout", min(self.timeout_ms, self.feas_first_ms))
         r = self.solver.check()
+        self.solver.set("timeout", self.timeout_ms)
         assertions = list(self.solver.assertions()) if r == z3.unknown else None
+        if r == z3.unknown and not self._bv_translatable(assertions):
+            r = self.solver.check()
+            assertions = list(self.solver.assertions()) if r == z3.unknown else None
         self.solver.pop()
         if r == z3.unknown:
             # second back end (fixed-width bit-vectors, exact for bounded integers)
@@ -191,6 +199,16 @@ class Interp:
                 return True
             raise Unsupported(f"solver unknown on branch feasibility: LIA {self.solver.reason_unknown()}; BV {info}")
         return r == z3.sat
+
+    def _bv_translatable(self, assertions):
+        import bvquery
+        try:
+            tr = bvquery.Translator(bvquery.collect_bounds(assertions), 160)
+            for a in assertions:
+                tr.t(a)
+            return True
+        except bvquery.Refuse:
+            return False
 
     def decide(self, cond):
         """branch on a (possibly symbolic) boolean; returns python bool"""
